@@ -1,11 +1,13 @@
 SPECIFICATION Spec
 INVARIANT PleOK
 INVARIANT PluqOK
+INVARIANT PluqNaiveOK
 CONSTANTS
   WB = 2
   CUTW = 2
   BLOCKT = 2
   PIVRULE = "first"
+  BaseCase <- NaiveBase
   SHAPES <- ShapesQuick
   BIG <- BigQuick
   PATS = 300
